@@ -5,6 +5,7 @@ go 1.25.7
 toolchain go1.25.8
 
 require (
+	filippo.io/edwards25519 v1.2.0
 	github.com/blinklabs-io/gouroboros v0.188.0
 	github.com/blinklabs-io/ouroboros-mock v0.16.0
 	github.com/btcsuite/btcd/btcutil v1.2.0
@@ -12,7 +13,6 @@ require (
 )
 
 require (
-	filippo.io/edwards25519 v1.2.0 // indirect
 	github.com/bits-and-blooms/bitset v1.24.4 // indirect
 	github.com/blinklabs-io/plutigo v0.3.0 // indirect
 	github.com/btcsuite/btcd/btcec/v2 v2.5.0 // indirect
